@@ -85,6 +85,11 @@ CLAIMED = {
          "~80 corpus applications x configuration variants x all histories up to depth 4 (quick) / 5 (thorough) over the application's selectors plus junk: per request (output, continue, Exec error?, Flush error?) must agree between the long-lived engine and every persisted twin (mem, fs text keys, fs binary keys, Postgres over the in-process fake; Finish always / only after success), and the stored record must decode to exactly the state that was saved.",
          "Trusted: nothing but the two modes themselves (differential). A long-lived engine is not continued after its session ended (documented as undefined). One open known finding (session left without code and position after two consecutive failures).",
          "DESIGN.md §4 C07"),
+ "C12": ("fault_enumeration",
+         "exhaustive crash-point enumeration over an instrumented os (build overlay generated from the current db/fs sources): death before/after every mutating file operation and after every write prefix of a whole request, recovery with fresh objects",
+         "Three applications with growing session records x all histories up to depth 2 (quick) / 3 (thorough); for the last request of each history every crash point of every file operation between Exec and Finish - including every partial write length - is taken once: afterwards the neighbour session's record is byte-identical, the session's record decodes to the old state or to one written by a completed save, and a fresh engine answers the next input exactly as the crash-free run does from that state.",
+         "Trusted: the os shim (_shimsrc/vos) models process death only (completed writes survive); power loss / dropped unsynced blocks are outside the statement. A tree whose db/fs needs os functions the shim lacks fails to build (exit 2, never a VIOLATION).",
+         "DESIGN.md §4 C12"),
 }
 
 NOT_YET = {}
